@@ -169,7 +169,7 @@ func Run(tier string) int {
 	res.Sample(map[string]any{"history": "{liquidate} {doubleSignEvidence} + 3 empty blocks, all invariant routes after each of the 5 commits"})
 	return engine.Finish(res, engine.Meta{
 		Property: Prop, Tier: tier, Level: "model_checking", Start: start,
-		Rule:        "every template alone, every ordered pair in consecutive blocks and in one block over 27 templates (21 base incl. evidence/downtime, vesting, liquid vesting, DAO, ERC20, EVM, precompiles + 4 governance flows with deposits + 2 adversarial: coins pushed at the pinned module accounts in five ways, a two-denomination deposit burnt after a veto), thorough: all triples of base templates; real InitChain/BeginBlock/DeliverTx/EndBlock/Commit; after every commit every invariant route of the crisis keeper (bank, staking, distribution, gov) is evaluated; transitions = committed blocks checked, non-trivial = history with an executed transaction",
+		Rule:        "every template alone, every ordered pair in consecutive blocks and in one block over 32 templates (23 base incl. evidence/downtime, vesting, liquid vesting, DAO, ERC20, EVM, precompiles + 4 governance flows with deposits + 5 adversarial: coins pushed at the pinned module accounts in five ways, a two-denomination deposit burnt after a veto, a contract with foreign coins self-destructing, stake leaving a validator in the block of its double sign, withdraw address pointed at module accounts), plus the pool-poke family (16 one-transaction programs caching a staking pool account around a staking precompile call), thorough: all triples of base templates; real InitChain/BeginBlock/DeliverTx/EndBlock/Commit; after every commit every invariant route of the crisis keeper (bank, staking, distribution, gov) is evaluated; transitions = committed blocks checked, non-trivial = history with an executed transaction",
 		Assumptions: []string{"invariants are evaluated on the committed state after every block (not inside blocks)"},
 	})
 }
